@@ -550,6 +550,29 @@ def build_catalogue(tier, rundir, nproc=16, log=None):
                     os.makedirs(os.path.join(rundir, seen_states[key]["snap"]))
                 new_frontier.append((key, seen_states[key]["snap"]))
             shutil.rmtree(keep, ignore_errors=True)
+        if gen == 1:
+            # directories left by a crash of the EARLIER rename/write/delete protocol (the library still cleans up its
+            # backup file): written by the harness, because the repaired library never leaves them behind itself
+            import io
+            def npz_bytes(g, k):
+                buf = io.BytesIO()
+                np.savez(buf, **c14_child.expected_dict(np, g, k))
+                return buf.getvalue()
+            for tag, with_partial in (("legacy-partial-cur", True), ("legacy-bak-only", False)):
+                snap = f"snapL{int(with_partial)}"
+                d = os.path.join(rundir, snap)
+                os.makedirs(d, exist_ok=True)
+                with open(os.path.join(d, BAK), "wb") as f:
+                    f.write(npz_bytes(1, S_GEN1 - 1))
+                if with_partial:
+                    full = npz_bytes(1, S_GEN1)
+                    with open(os.path.join(d, CUR), "wb") as f:
+                        f.write(full[: len(full) // 2])
+                key, files = classify_dir(d)
+                key = "legacy|" + key
+                if key not in seen_states:
+                    seen_states[key] = {"snap": snap, "first_seen_gen": 1, "by": "harness-legacy", "prev": newest_complete(files)}
+                    new_frontier.append((key, snap))
         frontier = sorted(new_frontier)
         if not frontier:
             break
